@@ -116,6 +116,13 @@ def noise_registration(env):
     env.eq('set_uncertainty(Q, R): both replaced (Q)', f.Q, Qn); env.eq('set_uncertainty(Q, R): both replaced (R)', f.R, Rn)
     xq, Pq = f(x, y, u, P, Q2, R2)
     env.eq('a per-call pair wins over the registered one', Pq, Ps)
+    # ONE per-call covariance overrides that one only: the other stays the registered one (Qn, Rn are registered at this point)
+    xm1, Pm1, xs1, Ps1 = kalman(T, sysm, x, P, u, y, Q2, Rn)
+    xo, Po = f(x, y, u, P, Q=Q2)
+    env.eq('a per-call Q alone is used with the registered R: covariance', Po, Ps1); env.eq('a per-call Q alone is used with the registered R: mean', xo, xs1)
+    xm2, Pm2, xs2, Ps2 = kalman(T, sysm, x, P, u, y, Qn, R2)
+    xo2, Po2 = f(x, y, u, P, R=R2)
+    env.eq('a per-call R alone is used with the registered Q: covariance', Po2, Ps2); env.eq('a per-call R alone is used with the registered Q: mean', xo2, xs2)
     g = ek.EKF(model)
     g.set_uncertainty(R=Rn)
     env.eq('registering R alone on a filter built without noise', g.R, Rn)
